@@ -189,6 +189,24 @@ def run_impl(case):
         fs2.genuines = newg
         fs2.frauds = newf
         out["setter_alias"] = bool(fs2.pos is newg and fs2.neg is newf)
+        # history: queries, then new scores assigned through the aliases, then the queries again: they have to describe
+        # the scores the object holds now (what Scores(pos=genuines, neg=frauds, ...) returns), not the earlier ones
+        fs4 = FraudScores(genuines=g, frauds=f, nb_easy_genuines=case["eg"], nb_easy_frauds=case["ef"], score_class=sc_arg)
+        for name, q in _queries(thr, targets).items():
+            _run(q, fs4)
+        g2, f2 = np.sort(1.0 - g), np.sort(f * 0.5)
+        if case.get("assign_via", "alias") == "alias":
+            fs4.genuines, fs4.frauds = g2, f2
+        else:
+            fs4.pos, fs4.neg = g2, f2
+        ref2 = Scores(pos=g2, neg=f2, nb_easy_pos=case["eg"], nb_easy_neg=case["ef"],
+                      score_class={"genuine": "pos", "fraud": "neg"}[case["sc"]], equal_class="pos")
+        hdiffs = {}
+        for name, q in _queries(thr, targets).items():
+            a, b = _run(q, fs4), _run(q, ref2)
+            if a[0] != b[0] or not _same(a[1], b[1]):
+                hdiffs[name] = [repr(a)[:200], repr(b)[:200]]
+        out["history_diffs"] = hdiffs
     # from_labels on the interleaved arrays
     scores_all = np.concatenate([g, f])[case["order"]] if len(case["order"]) else np.array([], dtype=float)
     labels = np.array(case["labels"], dtype=int)
@@ -256,6 +274,10 @@ def oracle(case, res):
         for name, (a, b) in sorted(r["diffs"].items()):
             fails.append((f"C19/query/{name.split('/')[0]}", f"{name}: FraudScores gives {a}, Scores(pos=genuines, neg=frauds, "
                           f"score_class={want_sc}, equal_class=pos) gives {b}"))
+        for name, (a, b) in sorted((r.get("history_diffs") or {}).items()):
+            fails.append((f"C19/history/{name.split('/')[0]}", f"{name} after earlier queries and new scores assigned through the "
+                          f"genuines/frauds aliases: FraudScores gives {a}, Scores(pos=genuines, neg=frauds, ...) of the current "
+                          f"scores gives {b}"))
     # from_labels
     fl_ = r["from_labels"]
     if bad and fl_["raised"] != "ValueError":
